@@ -676,6 +676,12 @@ func historyFor(c *Case) {
 		c.History = "same-address"
 	case 1:
 		c.History = "wider-object-first"
+		if strings.Contains(c.Script, "..") {
+			// the earlier run would give every name a number: a range that the
+			// judged run never builds (a type error comes first) could then span
+			// billions - the reference interpreter has screened the judged run only
+			c.History = "twice"
+		}
 	case 2:
 		c.History = "nil-first"
 	case 3:
